@@ -31,3 +31,307 @@ Proof. apply nth_upd_same. Qed.
 
 Lemma snth_supd_other l i k v : i <> k -> snth (supd l i v) k = snth l k.
 Proof. apply nth_upd_other. Qed.
+
+(* ---------- finite sums over index ranges ---------- *)
+Fixpoint sumn (n : nat) (f : nat -> Q) : Q := match n with O => 0 | S k => sumn k f + f k end.
+
+Lemma sumn_ext n f g : (forall k, (k < n)%nat -> f k == g k) -> sumn n f == sumn n g.
+Proof.
+  induction n as [|n IH]; intros H; simpl; [reflexivity|].
+  rewrite IH by (intros; apply H; lia). rewrite (H n) by lia. reflexivity.
+Qed.
+
+Lemma sumn_shift n f : sumn (S n) f == f 0%nat + sumn n (fun k => f (S k)).
+Proof.
+  induction n as [|n IH]; [simpl; ring|].
+  change (sumn (S (S n)) f) with (sumn (S n) f + f (S n)). rewrite IH. simpl. ring.
+Qed.
+
+Lemma sumn_zero n f : (forall k, (k < n)%nat -> f k == 0) -> sumn n f == 0.
+Proof.
+  induction n as [|n IH]; intros H; simpl; [reflexivity|].
+  rewrite IH by (intros; apply H; lia). rewrite (H n) by lia. ring.
+Qed.
+
+Lemma sumn_plus n f g : sumn n (fun k => f k + g k) == sumn n f + sumn n g.
+Proof. induction n as [|n IH]; simpl; [ring|]. rewrite IH. ring. Qed.
+
+Lemma sumn_scal n c f : sumn n (fun k => c * f k) == c * sumn n f.
+Proof. induction n as [|n IH]; simpl; [ring|]. rewrite IH. ring. Qed.
+
+(* a sum whose terms agree except at one index *)
+Lemma sumn_change_one n f g j : (j < n)%nat -> (forall k, (k < n)%nat -> k <> j -> f k == g k) ->
+  sumn n f == sumn n g + (f j - g j).
+Proof.
+  induction n as [|n IH]; intros Hj H; [lia|]. simpl.
+  destruct (Nat.eq_dec j n) as [->|Hne].
+  - rewrite (sumn_ext n f g) by (intros; apply H; lia). ring.
+  - rewrite IH by (try lia; intros; apply H; lia). rewrite (H n) by lia. ring.
+Qed.
+
+(* a sum extended by zero terms *)
+Lemma sumn_extend n m f : (n <= m)%nat -> (forall k, (n <= k < m)%nat -> f k == 0) -> sumn m f == sumn n f.
+Proof.
+  intros Hle. induction Hle as [|m Hle IH]; intros H; [reflexivity|].
+  simpl. rewrite IH by (intros; apply H; lia). rewrite (H m) by lia. ring.
+Qed.
+
+Lemma vnth_beyond l k : (length l <= k)%nat -> vnth l k = 0.
+Proof. revert k; induction l as [|a l IH]; intros [|k] H; simpl in *; try lia; auto. apply IH. lia. Qed.
+
+Lemma dot_sumn u x : dot u x == sumn (length u) (fun k => vnth u k * vnth x k).
+Proof.
+  revert x; induction u as [|a u IH]; intros x; [reflexivity|].
+  change (length (a :: u)) with (S (length u)). rewrite sumn_shift.
+  destruct x as [|b x]; simpl.
+  - rewrite sumn_zero by (intros; destruct u; simpl; ring). ring.
+  - rewrite IH. reflexivity.
+Qed.
+
+Lemma dot_sumn_ge u x n : (length u <= n)%nat -> dot u x == sumn n (fun k => vnth u k * vnth x k).
+Proof.
+  intros H. rewrite dot_sumn. symmetry. apply sumn_extend; auto.
+  intros k Hk. rewrite vnth_beyond by lia. ring.
+Qed.
+
+Lemma vnth_nil k : vnth [] k = 0.
+Proof. destruct k; reflexivity. Qed.
+
+Lemma tmat_vec_sumn A : forall y j, vnth (tmat_vec A y) j == sumn (length A) (fun i => vnth y i * vnth (nth i A []) j).
+Proof.
+  induction A as [|a A IH]; intros y j.
+  - simpl. reflexivity.
+  - change (length (a :: A)) with (S (length A)). rewrite sumn_shift.
+    destruct y as [|yi y]; simpl tmat_vec.
+    + rewrite !vnth_nil. rewrite sumn_zero by (intros; rewrite vnth_nil; ring). ring.
+    + rewrite vnth_vadd, vnth_vscale, IH. reflexivity.
+Qed.
+
+(* ---------- removal with the last element moved into the hole ---------- *)
+Lemma swap_remove_length {A} (d : A) i l : length (swap_remove d i l) = (length l - 1)%nat.
+Proof. unfold swap_remove. now rewrite map_length, seq_length. Qed.
+
+Lemma nth_map_seq {A} (f : nat -> A) d : forall len a k, (k < len)%nat -> nth k (map f (seq a len)) d = f (a + k)%nat.
+Proof.
+  induction len as [|len IH]; intros a k H; [lia|].
+  destruct k as [|k]; simpl.
+  - now rewrite Nat.add_0_r.
+  - rewrite IH by lia. f_equal. lia.
+Qed.
+
+Lemma nth_swap_remove {A} (d : A) i l k : (k < length l - 1)%nat ->
+  nth k (swap_remove d i l) d = if Nat.eqb k i then nth (length l - 1) l d else nth k l d.
+Proof. intros H. unfold swap_remove. now rewrite nth_map_seq by lia. Qed.
+
+Lemma vnth_swap_remove i u k : (k < length u - 1)%nat ->
+  vnth (swap_remove 0 i u) k = if Nat.eqb k i then vnth u (length u - 1) else vnth u k.
+Proof. intros H. rewrite !vnth_nth. now apply nth_swap_remove. Qed.
+
+(* the sum identity behind every "correct the index, then restore the removed element" *)
+Lemma sumn_swap n1 (c x : nat -> Q) j v : (j <= n1)%nat ->
+  sumn (S n1) (fun k => c k * (if Nat.eqb k j then v else if Nat.eqb k n1 then x j else x k))
+  == sumn n1 (fun k => (if Nat.eqb k j then c n1 else c k) * x k) + c j * v.
+Proof.
+  intros Hj.
+  set (F := fun k => c k * (if Nat.eqb k j then v else if Nat.eqb k n1 then x j else x k)).
+  set (G := fun k => (if Nat.eqb k j then c n1 else c k) * x k).
+  change (sumn n1 F + F n1 == sumn n1 G + c j * v).
+  destruct (Nat.eq_dec j n1) as [->|Hne].
+  - assert (E1 : sumn n1 F == sumn n1 G).
+    { apply sumn_ext. intros k Hk. unfold F, G. destruct (Nat.eqb_spec k n1); [lia|]. reflexivity. }
+    rewrite E1. unfold F. rewrite Nat.eqb_refl. reflexivity.
+  - assert (E1 : sumn n1 F == sumn n1 G + (F j - G j)).
+    { apply sumn_change_one; [lia|]. intros k Hk Hkj. unfold F, G.
+      destruct (Nat.eqb_spec k j); [lia|]. destruct (Nat.eqb_spec k n1); [lia|]. reflexivity. }
+    rewrite E1. unfold F, G. rewrite !Nat.eqb_refl.
+    destruct (Nat.eqb_spec n1 j); [lia|]. ring.
+Qed.
+
+(* x with the element of position j moved back to the last position n1 and v written to position j *)
+Definition unswap (x : list Q) (j n1 : nat) (v : Q) : list Q :=
+  qupd (if Nat.eqb j n1 then x else qupd x n1 (vnth x j)) j v.
+
+Lemma vnth_unswap x j n1 v k :
+  vnth (unswap x j n1 v) k = if Nat.eqb k j then v else if Nat.eqb k n1 then vnth x j else vnth x k.
+Proof.
+  unfold unswap. destruct (Nat.eqb_spec k j) as [->|Hkj].
+  - apply vnth_qupd_same.
+  - rewrite vnth_qupd_other by congruence.
+    destruct (Nat.eqb_spec j n1) as [->|Hjn].
+    + destruct (Nat.eqb_spec k n1); [congruence|reflexivity].
+    + destruct (Nat.eqb_spec k n1) as [->|Hkn]; [apply vnth_qupd_same|].
+      now rewrite vnth_qupd_other by congruence.
+Qed.
+
+Lemma dot_unswap u x j v : (j < length u)%nat ->
+  dot u (unswap x j (length u - 1) v) == dot (swap_remove 0 j u) x + vnth u j * v.
+Proof.
+  intros Hj. rewrite !dot_sumn, swap_remove_length.
+  destruct (length u) as [|n1] eqn:E; [lia|]. replace (S n1 - 1)%nat with n1 by lia.
+  rewrite (sumn_ext (S n1) _ (fun k => vnth u k * (if Nat.eqb k j then v else if Nat.eqb k n1 then vnth x j else vnth x k)))
+    by (intros; rewrite vnth_unswap; reflexivity).
+  rewrite (sumn_swap n1 (vnth u) (vnth x) j v) by lia.
+  apply Qplus_comp; [|reflexivity].
+  apply sumn_ext. intros k Hk. rewrite vnth_swap_remove by (rewrite E; lia). rewrite E.
+  replace (S n1 - 1)%nat with n1 by lia. reflexivity.
+Qed.
+
+Lemma tmat_vec_unswap A y i v j : (i < length A)%nat ->
+  vnth (tmat_vec A (unswap y i (length A - 1) v)) j == vnth (tmat_vec (swap_remove [] i A) y) j + v * vnth (nth i A []) j.
+Proof.
+  intros Hi. rewrite !tmat_vec_sumn, swap_remove_length.
+  destruct (length A) as [|m1] eqn:E; [lia|]. replace (S m1 - 1)%nat with m1 by lia.
+  rewrite (sumn_ext (S m1) _ (fun k => vnth (nth k A []) j * (if Nat.eqb k i then v else if Nat.eqb k m1 then vnth y i else vnth y k)))
+    by (intros; rewrite vnth_unswap; ring).
+  rewrite (sumn_swap m1 (fun k => vnth (nth k A []) j) (vnth y) i v) by lia.
+  rewrite (Qmult_comm v). apply Qplus_comp; [|reflexivity].
+  apply sumn_ext. intros k Hk. rewrite nth_swap_remove by (rewrite E; lia). rewrite E.
+  replace (S m1 - 1)%nat with m1 by lia. destruct (Nat.eqb k i); ring.
+Qed.
+
+(* ---------- sparse copies ---------- *)
+Fixpoint sumseq (l : list nat) (f : nat -> Q) : Q := match l with [] => 0 | k :: r => f k + sumseq r f end.
+
+Lemma sumseq_seq f : forall len a, sumseq (seq a len) f == sumn len (fun k => f (a + k)%nat).
+Proof.
+  induction len as [|len IH]; intros a; [reflexivity|].
+  simpl seq. simpl sumseq. rewrite IH. rewrite sumn_shift. rewrite Nat.add_0_r.
+  apply Qplus_comp; [reflexivity|]. apply sumn_ext. intros k _. now rewrite Nat.add_succ_r.
+Qed.
+
+Lemma sdot_app u v x : sdot (u ++ v) x == sdot u x + sdot v x.
+Proof. induction u as [|[k a] u IH]; simpl; [ring|]. rewrite IH. ring. Qed.
+
+Lemma sdot_sp_of f n x : sdot (sp_of f n) x == sumn n (fun k => f k * vnth x k).
+Proof.
+  unfold sp_of. transitivity (sumseq (seq 0 n) (fun k => f k * vnth x k)).
+  - induction (seq 0 n) as [|k l IH]; [reflexivity|]. simpl flat_map. rewrite sdot_app, IH. simpl sumseq.
+    apply Qplus_comp; [|reflexivity].
+    destruct (Qeq_bool (f k) 0) eqn:E; simpl; [|ring]. apply Qeq_bool_iff in E. rewrite E. ring.
+  - rewrite sumseq_seq. apply sumn_ext. intros; reflexivity.
+Qed.
+
+Lemma sdot_skip_app u v s x : sdot_skip (u ++ v) s x == sdot_skip u s x + sdot_skip v s x.
+Proof. induction u as [|[k a] u IH]; simpl; [ring|]. rewrite IH. ring. Qed.
+
+Lemma sdot_skip_sp_of f n s x : sdot_skip (sp_of f n) s x == sumn n (fun k => if Nat.eqb k s then 0 else f k * vnth x k).
+Proof.
+  unfold sp_of. transitivity (sumseq (seq 0 n) (fun k => if Nat.eqb k s then 0 else f k * vnth x k)).
+  - induction (seq 0 n) as [|k l IH]; [reflexivity|]. simpl flat_map. rewrite sdot_skip_app, IH. simpl sumseq.
+    apply Qplus_comp; [|reflexivity].
+    destruct (Qeq_bool (f k) 0) eqn:E; simpl.
+    + apply Qeq_bool_iff in E. destruct (Nat.eqb k s); [ring|]. rewrite E. ring.
+    + destruct (Nat.eqb k s); ring.
+  - rewrite sumseq_seq. apply sumn_ext. intros; reflexivity.
+Qed.
+
+Lemma sadd_app u v c s : sadd (u ++ v) c s = sadd v c (sadd u c s).
+Proof. revert s; induction u as [|[k a] u IH]; intros s; simpl; auto. Qed.
+
+Lemma vnth_sadd_notin u c : forall s k, ~ In k (map fst u) -> vnth (sadd u c s) k = vnth s k.
+Proof.
+  induction u as [|[i a] u IH]; intros s k H; simpl; auto.
+  simpl in H. rewrite IH by tauto. apply vnth_qupd_other. tauto.
+Qed.
+
+Lemma vnth_sadd_sp_of f c : forall len a s k,
+  vnth (sadd (flat_map (fun k => if Qeq_bool (f k) 0 then [] else [(k, f k)]) (seq a len)) c s) k
+  == vnth s k + (if (Nat.leb a k && Nat.ltb k (a + len))%bool then f k * c else 0).
+Proof.
+  induction len as [|len IH]; intros a s k.
+  - simpl. destruct (Nat.leb_spec a k), (Nat.ltb_spec k (a + 0)); simpl; try ring; lia.
+  - simpl seq. simpl flat_map. rewrite sadd_app, IH. cbv beta.
+    destruct (Nat.eq_dec k a) as [->|Hne].
+    + destruct (Nat.leb_spec (S a) a); [lia|]. simpl andb.
+      destruct (Nat.leb_spec a a); [|lia]. destruct (Nat.ltb_spec a (a + S len)); [|lia]. simpl andb.
+      destruct (Qeq_bool (f a) 0) eqn:E; simpl.
+      * apply Qeq_bool_iff in E. rewrite E. ring.
+      * rewrite vnth_qupd_same. ring.
+    + destruct (Qeq_bool (f a) 0); simpl sadd; [|rewrite vnth_qupd_other by congruence];
+      destruct (Nat.leb_spec (S a) k), (Nat.leb_spec a k), (Nat.ltb_spec k (S a + len)), (Nat.ltb_spec k (a + S len)); simpl; try ring; lia.
+Qed.
+
+Lemma vnth_sadd_sp n f c s k : vnth (sadd (sp_of f n) c s) k == vnth s k + (if Nat.ltb k n then f k * c else 0).
+Proof. unfold sp_of. rewrite vnth_sadd_sp_of. simpl. reflexivity. Qed.
+
+(* ---------- access to the reduced LPs ---------- *)
+Lemma activity_sumn P i x : wf_lp P -> (i < nrows P)%nat -> activity P i x == sumn (ncols P) (fun k => coef P i k * vnth x k).
+Proof. intros W Hi. unfold activity. apply dot_sumn_ge. rewrite W by auto. lia. Qed.
+
+Lemma matrix_length P : length (matrix P) = nrows P.
+Proof. unfold matrix, nrows. apply map_length. Qed.
+
+Lemma nth_matrix P i : nth i (matrix P) [] = r_coef (rowi P i).
+Proof. unfold matrix, rowi. change [] with (r_coef drow). apply map_nth. Qed.
+
+Lemma tvec_sumn P y j : vnth (tmat_vec (matrix P) y) j == sumn (nrows P) (fun i => vnth y i * coef P i j).
+Proof. rewrite tmat_vec_sumn, matrix_length. apply sumn_ext. intros i _. rewrite nth_matrix. reflexivity. Qed.
+
+Lemma matrix_remove_row P i : matrix (red_remove_row P i) = swap_remove [] i (matrix P).
+Proof.
+  unfold matrix, red_remove_row, swap_remove; simpl. rewrite map_map, map_length.
+  apply map_ext. intros k. change [] with (r_coef drow). rewrite !map_nth. destruct (Nat.eqb k i); reflexivity.
+Qed.
+
+Lemma nrows_remove_row P i : nrows (red_remove_row P i) = (nrows P - 1)%nat.
+Proof. unfold nrows, red_remove_row; simpl. apply swap_remove_length. Qed.
+
+Lemma rowi_remove_row P i k : (k < nrows P - 1)%nat ->
+  rowi (red_remove_row P i) k = if Nat.eqb k i then rowi P (nrows P - 1) else rowi P k.
+Proof. intros H. unfold rowi, red_remove_row; simpl. now apply nth_swap_remove. Qed.
+
+(* status lists *)
+Definition sunswap (l : list vstat) (j n1 : nat) (v : vstat) : list vstat :=
+  supd (if Nat.eqb j n1 then l else supd l n1 (snth l j)) j v.
+
+Lemma snth_sunswap l j n1 v k :
+  snth (sunswap l j n1 v) k = if Nat.eqb k j then v else if Nat.eqb k n1 then snth l j else snth l k.
+Proof.
+  unfold sunswap. destruct (Nat.eqb_spec k j) as [->|Hkj].
+  - apply snth_supd_same.
+  - rewrite snth_supd_other by congruence.
+    destruct (Nat.eqb_spec j n1) as [->|Hjn].
+    + destruct (Nat.eqb_spec k n1); [congruence|reflexivity].
+    + destruct (Nat.eqb_spec k n1) as [->|Hkn]; [apply snth_supd_same|].
+      now rewrite snth_supd_other by congruence.
+Qed.
+
+Lemma cntb_ext l l' n : (forall k, (k < n)%nat -> snth l k = snth l' k) -> cntb l n = cntb l' n.
+Proof.
+  induction n as [|n IH]; intros H; simpl; auto. rewrite IH by (intros; apply H; lia). rewrite (H n) by lia. reflexivity.
+Qed.
+
+Definition b1 (v : vstat) : nat := if is_basic v then 1%nat else 0%nat.
+
+Lemma cntb_change_one l l' j : forall n, (j < n)%nat -> (forall k, (k < n)%nat -> k <> j -> snth l' k = snth l k) ->
+  (cntb l' n + b1 (snth l j) = cntb l n + b1 (snth l' j))%nat.
+Proof.
+  induction n as [|n IH]; intros Hj H; [lia|]. simpl cntb. fold (b1 (snth l' n)). fold (b1 (snth l n)).
+  destruct (Nat.eq_dec j n) as [->|Hne].
+  - rewrite (cntb_ext l' l n) by (intros; apply H; lia). lia.
+  - rewrite (H n) by lia. assert (cntb l' n + b1 (snth l j) = cntb l n + b1 (snth l' j))%nat by (apply IH; [lia|intros; apply H; lia]). lia.
+Qed.
+
+(* counting after the index correction: positions < n1 other than j are unchanged, j gets v, n1 gets the old j *)
+Lemma cntb_sunswap l j n1 v : (j <= n1)%nat -> cntb (sunswap l j n1 v) (S n1) = (cntb l n1 + b1 v)%nat.
+Proof.
+  intros Hj. simpl cntb. fold (b1 (snth (sunswap l j n1 v) n1)).
+  destruct (Nat.eq_dec j n1) as [->|Hne].
+  - rewrite snth_sunswap, Nat.eqb_refl.
+    rewrite (cntb_ext _ l n1); [reflexivity|].
+    intros k Hk. rewrite snth_sunswap. destruct (Nat.eqb_spec k n1); [lia|reflexivity].
+  - rewrite snth_sunswap. destruct (Nat.eqb_spec n1 j); [lia|]. rewrite Nat.eqb_refl.
+    assert (E : (cntb (sunswap l j n1 v) n1 + b1 (snth l j) = cntb l n1 + b1 (snth (sunswap l j n1 v) j))%nat).
+    { apply cntb_change_one; [lia|]. intros k Hk Hkj. rewrite snth_sunswap.
+      destruct (Nat.eqb_spec k j); [lia|]. destruct (Nat.eqb_spec k n1); [lia|reflexivity]. }
+    rewrite snth_sunswap, Nat.eqb_refl in E. exact E.
+Qed.
+
+Lemma cntb_supd l j v n : (j < n)%nat -> (cntb (supd l j v) n + b1 (snth l j) = cntb l n + b1 v)%nat.
+Proof.
+  intros Hj. rewrite <- (snth_supd_same l j v) at 2. apply cntb_change_one; auto.
+  intros k _ Hk. apply snth_supd_other. congruence.
+Qed.
+
+Lemma cntb_supd_beyond l j v n : (n <= j)%nat -> cntb (supd l j v) n = cntb l n.
+Proof. intros H. apply cntb_ext. intros k Hk. apply snth_supd_other. lia. Qed.
